@@ -189,6 +189,20 @@ def cli_stream(chk, n):
                     for k, b in enumerate(v):
                         out += "BRDA:%d,0,%d,%s\n" % (l, k, "1" if b else "-")
             out += "end_of_record\n"
+            two_spellings = rng.random() < 0.5
+            if two_spellings:
+                # the same source once more under a second spelling (build-machine prefix, removed by -p): the two records reach the
+                # rewriting step as distinct keys, both must lose the excluded data before they are merged
+                cov2 = gen_cov(rng, nl)
+                out += "SF:/ci/build/%s\n" % rel
+                for l, c in cov2["lines"]:
+                    if l >= 1:
+                        out += "DA:%d,%d\n" % (l, c)
+                for l, v in cov2["branches"]:
+                    if l >= 1:
+                        for k, b in enumerate(v):
+                            out += "BRDA:%d,0,%d,%s\n" % (l, k, "1" if b else "-")
+                out += "end_of_record\n"
             blob = out.encode()
             inp = os.path.join(root, "in.info")
         open(inp, "wb").write(blob)
@@ -196,11 +210,20 @@ def cli_stream(chk, n):
         parsed = vlib.run_impl("parse", [{"hex": blob.hex(), "format": "xml" if use_xml else "info", "branch": branch}], chk.pid)[0]
         if "ok" not in parsed:
             continue
-        recs = {bytes.fromhex(nm).decode(): gen.cov_canon(c) for nm, c in parsed["ok"]}
+        groups = {}
+        for nm, c in parsed["ok"]:
+            nm = bytes.fromhex(nm).decode()
+            groups.setdefault(nm[len("/ci/build/"):] if nm.startswith("/ci/build/") else nm, []).append(gen.cov_canon(c))
+        recs = {}
+        for nm, cs in groups.items():
+            a = gen.ref_agg(cs)
+            recs[nm] = {"lines": a["lines"], "branches": a["branches"], "funcs": cs[0]["funcs"]}
         rx = rng.choice(REGEXES)
         sub = rng.choice([63, 63, rng.randrange(64), 9, 18, 36, 8, 1]) if not use_xml else rng.choice([63, 8, 48, 24, 56, 63, rng.randrange(64)])
         opts = [rx[j] if (sub >> j) & 1 else None for j in range(6)]
         cmd = [exe, inp, "-s", src, "-t", "lcov", "--threads", "1"] + (["--branch"] if branch else [])
+        if not use_xml and two_spellings:
+            cmd += ["-p", "/ci/build"]
         for nm, o in zip(names, opts):
             if o is not None:
                 cmd += [nm, o]
